@@ -5,7 +5,8 @@
 //       no source change in the library; the solver is run with verbose=1 so that its own trace tells a max_iter exit),
 //   (b) the float coefficients of the monotone fit (after the cumulative-sum back-transformation of glamfit_complex),
 //   (c) the float coefficients of the unconstrained fit of the same data and its normal system (B-spline basis; --wrap=cholesky_solve),
-//   (c') for ndim >= 2 the B-basis penalty matrix of every non-monotonic dimension with non-zero smoothing (calc_penalty called directly),
+//   (c') for ndim >= 2 the penalty matrix of every dimension with non-zero smoothing, in the B-basis and as built for the monotone fit
+//        (calc_penalty called directly without / with the monotonic dimension),
 //   (d) real ndsplineeval of the monotone table with the derivative bit of monodim (and the plain value) at given points.
 //
 // input (whitespace separated tokens; doubles as 16-digit hex bit patterns):
@@ -22,7 +23,7 @@
 extern "C" {
 cholmod_dense* __real_nnls_normal_block3(cholmod_sparse* AtA, cholmod_dense* Atb, int verbose, cholmod_common* c);
 cholmod_dense* __real_cholesky_solve(cholmod_sparse* AtA, cholmod_dense* Atb, cholmod_common* c, int verbose, int n_resolves);
-cholmod_sparse* calc_penalty(uint64_t* nsplines, double* knots, uint32_t ndim, uint32_t i, uint32_t order, uint32_t porder, int mono, cholmod_common* c);
+cholmod_sparse* calc_penalty(uint64_t* nsplines, double* knots, uint32_t ndim, uint32_t i, uint32_t order, uint32_t porder, uint32_t monodim, cholmod_common* c);
 }
 
 static void dump_sparse(const char* tag, cholmod_sparse* S, cholmod_common* c){
@@ -133,16 +134,22 @@ int main(){
         printf("\n");
       }catch(std::exception& e){ g_free_phase=0; printf("free.coef 1 0 # %s\n",e.what()); }
     }
-    // the per-dimension penalty matrices in the B-spline basis (calc_penalty called directly, mono = 0), for ndim >= 2:
-    // lets the driver separate the penalty terms of the non-monotonic dimensions from the captured systems
+    // the per-dimension penalty matrices (calc_penalty called directly) for ndim >= 2, every dimension with non-zero smoothing:
+    //   pen.k  in the B-spline basis (no monotonic dimension), penT.k as the monotone fit builds it (monodim given):
+    // the driver checks penT.k == (L' in the monodim slot) pen.k (L in the monodim slot) term by term, and uses pen.k to tell the
+    // signature of the old defect D28 (other dimensions' terms left in the B-basis) from any other disagreement
     if(ndim>=2 && !(flags&1)){
       cholmod_common cc; cholmod_l_start(&cc);
       std::vector<uint64_t> nspl; for(auto& d: dims) nspl.push_back(d.knots.size()-d.order-1);
       for(uint32_t k=0;k<ndim;k++){
-        if(k==monodim || dims[k].smooth==0.0) continue;
+        if(dims[k].smooth==0.0) continue;
         std::vector<double> kn(dims[k].knots);
-        cholmod_sparse* P=calc_penalty(nspl.data(),kn.data(),ndim,k,dims[k].order,dims[k].porder,0,&cc);
-        char tag[32]; snprintf(tag,sizeof tag,"pen.%u",k); dump_sparse(tag,P,&cc);
+        char tag[32];
+        cholmod_sparse* P=calc_penalty(nspl.data(),kn.data(),ndim,k,dims[k].order,dims[k].porder,PHOTOSPLINE_GLAM_NO_MONODIM,&cc);
+        snprintf(tag,sizeof tag,"pen.%u",k); dump_sparse(tag,P,&cc);
+        cholmod_l_free_sparse(&P,&cc);
+        P=calc_penalty(nspl.data(),kn.data(),ndim,k,dims[k].order,dims[k].porder,monodim,&cc);
+        snprintf(tag,sizeof tag,"penT.%u",k); dump_sparse(tag,P,&cc);
         cholmod_l_free_sparse(&P,&cc);
       }
       cholmod_l_finish(&cc);
